@@ -118,6 +118,47 @@ func genFileOps(r *rng, size int64, regs []refRegion, n int) []visoOp {
 	return ops
 }
 
+// refOps: what a sequence of ReadAt/Read/Seek observes on a fixed byte string given by `view`
+func refOps(ops []visoOp, size int64, view func(off, cnt int64) []byte) []string {
+	var ref []string
+	cur := int64(0)
+	for _, op := range ops {
+		switch op.kind {
+		case 'A', 'R':
+			off := op.off
+			if op.kind == 'R' {
+				off = cur
+			}
+			d := view(off, int64(op.n))
+			cls := "ok"
+			if len(d) < op.n {
+				cls = "eof"
+			}
+			ref = append(ref, fmt.Sprintf("%d/%s/%s", len(d), cls, digest(d)))
+			if op.kind == 'R' {
+				cur += int64(len(d))
+			}
+		case 'S':
+			var t int64
+			switch op.whence {
+			case 0:
+				t = op.off
+			case 1:
+				t = cur + op.off
+			default:
+				t = size + op.off
+			}
+			if t < 0 {
+				ref = append(ref, "0/err")
+			} else {
+				cur = t
+				ref = append(ref, fmt.Sprintf("%d/ok", t))
+			}
+		}
+	}
+	return ref
+}
+
 // c10OpsStream: library-level access patterns on the decrypting / masking views.
 func c10OpsStream(o *out, r *rng, thorough bool) {
 	n := 24
@@ -190,40 +231,8 @@ func c10OpsStream(o *out, r *rng, thorough bool) {
 				}
 				return d
 			}
-			for _, op := range ops {
-				switch op.kind {
-				case 'A', 'R':
-					off := op.off
-					if op.kind == 'R' {
-						off = cur
-					}
-					d := view(off, int64(op.n))
-					cls := "ok"
-					if len(d) < op.n {
-						cls = "eof"
-					}
-					ref = append(ref, fmt.Sprintf("%d/%s/%s", len(d), cls, digest(d)))
-					if op.kind == 'R' {
-						cur += int64(len(d))
-					}
-				case 'S':
-					var t int64
-					switch op.whence {
-					case 0:
-						t = op.off
-					case 1:
-						t = cur + op.off
-					default:
-						t = im.node.size + op.off
-					}
-					if t < 0 {
-						ref = append(ref, "0/err")
-					} else {
-						cur = t
-						ref = append(ref, fmt.Sprintf("%d/ok", t))
-					}
-				}
-			}
+			_ = cur
+			ref = refOps(ops, im.node.size, view)
 			sm := 0
 			if short {
 				sm = 1
@@ -231,6 +240,56 @@ func c10OpsStream(o *out, r *rng, thorough bool) {
 			o.count("view:" + kind)
 			o.count(fmt.Sprintf("short-reads:%v", short))
 			o.emit(fmt.Sprintf("fileops %d %s %s %s", sm, encodeTree(nodes), hx([]byte(im.node.path)), encodeOps(ops)), obs, "ops="+strings.Join(ref, ","), fmt.Sprintf("ops%d", i))
+			if kind == "3k3y-dec" {
+				return
+			}
+			// the same image through the view the decrypt tools build: header clearing requested
+			// (NewEncryptedISO(image, key, true); for 3k3y inside NewISO3k3y). The region table - and nothing
+			// else - reads as zeros, wherever a read starts: inside the table, after a seek into it, after a
+			// short read that ended inside it
+			hdr := int64(8 + 8*len(im.regs))
+			cops := []visoOp{{kind: 'A', n: 24, off: 1}, {kind: 'A', n: 100, off: hdr - 1}, {kind: 'S', off: 5, whence: 0}, {kind: 'R', n: 40},
+				{kind: 'A', n: 16, off: hdr}, {kind: 'S', off: 0, whence: 0}, {kind: 'R', n: int(hdr) - 3}, {kind: 'R', n: 50}, {kind: 'A', n: 2049, off: 3}}
+			cops = append(cops, genFileOps(r, im.node.size, im.regs, 8)...)
+			cobs := "openerr"
+			func() {
+				defer func() {
+					if rec := recover(); rec != nil {
+						cobs = "PANIC-in-open"
+					}
+				}()
+				raw, err := base.Open(im.node.path)
+				if err != nil {
+					return
+				}
+				defer raw.Close()
+				var v afero.File
+				enc, err := fs.NewEncryptedISO(raw, key, true)
+				if err != nil {
+					return
+				}
+				v = enc
+				if kind == "3k3y-enc" {
+					m, err := fs.NewISO3k3y(enc)
+					if err != nil {
+						return
+					}
+					v = m
+				}
+				cobs = "ops=" + strings.Join(runFileOps(v, cops), ",")
+			}()
+			cview := func(off, cnt int64) []byte {
+				d := view(off, cnt)
+				for i := range d {
+					if off+int64(i) < hdr {
+						d[i] = 0
+					}
+				}
+				return d
+			}
+			o.count("view:" + kind + "+clear-header")
+			o.emit(fmt.Sprintf("fileopsclr %d %s %s %s %s %s", sm, encodeTree(nodes), hx([]byte(im.node.path)), kind, hx(key), encodeOps(cops)), cobs,
+				"ops="+strings.Join(refOps(cops, im.node.size, cview), ","), fmt.Sprintf("opsclr%d", i))
 		})
 	}
 }
